@@ -21,6 +21,7 @@ import (
 	resourcetypes "github.com/projecteru2/core/resource/types"
 	"github.com/projecteru2/core/store"
 	"github.com/projecteru2/core/store/etcdv3"
+	"github.com/projecteru2/core/store/etcdv3/embedded"
 	"github.com/projecteru2/core/store/etcdv3/meta"
 	"github.com/projecteru2/core/types"
 )
@@ -626,4 +627,10 @@ func (cl *Cluster) InstallKVShim() bool {
 		m.KV = &KVShim{Real: m.KV, B: cl.B, Inst: cl.Inst}
 	}
 	return true
+}
+
+// EtcdClient returns a raw (namespaced) client of the embedded etcd the cluster runs on (leases, revocation, raw
+// reads). Call it from the test goroutine: the embedded-cluster registry is not synchronised.
+func (cl *Cluster) EtcdClient() *clientv3.Client {
+	return embedded.NewCluster(cl.T, cl.Cfg.Etcd.Prefix).RandClient()
 }
